@@ -256,8 +256,8 @@ def r6_index_forwarding(ctx):
                                    "table accept)", False, u(sub), key=f"C05-R6|index-window|{mod}|{fi.qualname}")
             ctx.ob(fi.where, "index handed on unchanged", True, "", key=f"C05-R6|scanned|{mod}|{fi.qualname}")
     ctx.floor("__getitem__ links of the lazy selection chain", n, 8)
-    from .c20 import r3_self_array_writes
-    r3_self_array_writes(ctx)
+    from .c20 import r3_self_array_writes, IO_TABLE_MODULES
+    r3_self_array_writes(ctx, IO_TABLE_MODULES)
 
 
 from ..through_time import make_rule as _mk_tt
